@@ -36,6 +36,8 @@ type Run struct {
 	dir string
 	cm  *cmdModel
 	lim int
+	// infrastructure failures (the process could not be started) so far
+	attempt int
 }
 
 type Obs struct {
@@ -113,9 +115,17 @@ func execRun(r *Run) Obs {
 	var so, se bytes.Buffer
 	cmd.Stdout, cmd.Stderr = &so, &se
 	cmd.Stdin = strings.NewReader(r.Stdin)
-	cmd.WaitDelay = 2 * time.Second
+	cmd.WaitDelay = 10 * time.Second
 	t0 := time.Now()
 	err := cmd.Run()
+	if _, isExit := err.(*exec.ExitError); err != nil && !isExit && ctx.Err() == nil && r.attempt < 3 {
+		// the process could not be started or its pipes were not drained in time (fork failure, WaitDelay on a machine
+		// other jobs have filled up): that says nothing about sysl - the run is repeated
+		r.attempt++
+		cancel()
+		time.Sleep(200 * time.Millisecond)
+		return execRun(r)
+	}
 	o := Obs{Dur: time.Since(t0), Stdout: so.Len()}
 	o.Stderr = se.String()
 	if len(o.Stderr) > 1<<16 {
@@ -394,6 +404,11 @@ func matrix(rng *common.Rng, m *SModel, text string, thorough bool) []*Run {
 		addx("generate-db-scripts", "generate-db-scripts", "-o", "out/", "-a", "Ghost0", "-d", "postgres", "-t", "T", "m.sysl")
 		addx("generate-db-scripts", "generate-db-scripts", "-o", "out/", "-a", apps[0], "-d", "mysql", "-t", "T", "m.sysl")
 	}
+	if strings.HasPrefix(m.Shape, "fmt") {
+		// the project application carries format strings: the templated sequence diagrams of the project read them
+		add("sd", "sd", "-o", "out/%(epname).puml", "-a", "SeqProj", "m.sysl")
+		add("sd", "sd", "-o", "out/%(epname).puml", "-a", m.Project, "m.sysl")
+	}
 	extraMatrix(rng, m, add, func(class string, argv ...string) *Run {
 		if thorough || rng.Intn(5) == 0 {
 			return add(class, argv...)
@@ -453,7 +468,9 @@ func runAll(runs []*Run, workers int) []done {
 	// a deadline missed while several subprocesses share a busy machine is not yet a hang: such runs are
 	// repeated alone with three times the deadline, and only a second miss is judged (a real hang misses it again)
 	for i := range out {
-		if out[i].o.Timeout {
+		// (a non-zero status with nothing on stderr / stdout is repeated as well: on a machine that other jobs have filled up
+		// the pipes of a finished child are sometimes closed before they were drained, and the message is lost)
+		if o := out[i].o; o.Timeout || (o.RC != 0 && !o.Crash && !o.CPUHang && strings.TrimSpace(o.Stderr) == "" && o.Stdout == 0) {
 			retried++
 			old := deadline
 			deadline = 3 * old
@@ -531,6 +548,19 @@ func main() {
 	for i := 0; i < nRandom; i++ {
 		models = append(models, genModel(c.Rng.Fork(), genCfg{}))
 	}
+	// format strings in the model's attributes (epfmt / appfmt / seqtitle / title of the project application)
+	nFmt, nImpErr := 5, 40
+	if c.Thorough() {
+		nFmt, nImpErr = 24, 300
+	}
+	if c.Search {
+		nFmt *= 3
+		nImpErr *= 3
+	}
+	models = append(models, fmtShapes()...)
+	for i := 0; i < nFmt; i++ {
+		models = append(models, genFmtModel(c.Rng.Fork()))
+	}
 	for i := 0; i < nTidy; i++ {
 		models = append(models, genModel(c.Rng.Fork(), genCfg{tidy: true}))
 	}
@@ -539,6 +569,7 @@ func main() {
 		models, nDeltaGen, nDelta, nImport = models[:1], 0, 0, 0
 	}
 	cases := newCaseWriter(c)
+	xcases := newXCaseWriter(c)
 	var compiled []int
 	texts := make([]string, len(models))
 	// compile gate (parallel)
@@ -628,6 +659,21 @@ func main() {
 	for k := 0; k < nImport; k++ {
 		all = append(all, importRuns(c.Rng.Fork())...)
 	}
+	// imports that FAIL for a semantic reason at every nesting depth (Swagger 2 trees compared in Coq, the other formats oracle only)
+	impDocs := impFixedDocs()
+	if !onlyOpt {
+		ir := c.Rng.Fork()
+		for k := 0; k < nImpErr; k++ {
+			impDocs = append(impDocs, genImpDoc(ir, impFaults[k%len(impFaults)], impPlaces[ir.Intn(len(impPlaces))], (k/len(impFaults))%5))
+		}
+		all = append(all, otherErrDocs(c.Rng.Fork(), c.Thorough())...)
+	}
+	impRuns := make([]*Run, len(impDocs))
+	for k, d := range impDocs {
+		impRuns[k] = impErrRun(d, k)
+		c.Hist("shape:imp-" + strings.SplitN(strings.TrimPrefix(strings.TrimPrefix(d.note, "swagger error document: "), "swagger control document: "), " ", 2)[0])
+		all = append(all, impRuns[k])
+	}
 	t0 := time.Now()
 	results := runAll(all, workers)
 	c.Res.Extra["deadline_retries"] = retried
@@ -649,6 +695,12 @@ func main() {
 	// correspondence cases
 	for _, i := range compiled {
 		cases.addModel(&models[i], texts[i], perModel[i], byRun)
+		if strings.HasPrefix(models[i].Shape, "fmt") {
+			xcases.addFmtModel(&models[i], texts[i], perModel[i], byRun)
+		}
+	}
+	for k, d := range impDocs {
+		xcases.addImp(d, byRun[impRuns[k]])
 	}
 	for k, p := range pairs {
 		// both versions must compile (the generator's own gate) and a pair whose delta exits 0 must have written the script
@@ -668,6 +720,7 @@ func main() {
 		cases.addDelta(p, rs, byRun)
 	}
 	cases.close()
+	xcases.close()
 	if len(compiled) > 0 {
 		c.Sample(map[string]interface{}{"shape": models[compiled[0]].Shape, "sysl": texts[compiled[0]]})
 		if len(compiled) > 30 {
